@@ -87,6 +87,20 @@ def run(ctx):
         evs1, _ = saem.run_config(kind, base_cfg, seed=seed, workdir=w, compare_to=base)
         events += evs1
         ctx.case(key=(kind, "repeat-after-history"))
+        # the same algorithm object run twice (annealing on), and settings that travelled through a JSON file, for seeds 0 and 5
+        for sd in (0, 5):
+            acfg = dict(base_cfg, ann=dict(spec=("count", 4), p=3, t0=(5, 1)))
+            w2 = os.path.join(ctx.tmp, f"reuse_{kind}_{sd}")
+            os.makedirs(w2, exist_ok=True)
+            evs_a, info_a = saem.run_config(kind, acfg, seed=sd, workdir=w2, want_params=True)
+            events += evs_a
+            burn_rngs(rnd)
+            evs_b, _ = saem.run_config(kind, acfg, seed=sd, workdir=w2, compare_to=info_a["params"], reuse_algo=True)
+            events += evs_b
+            burn_rngs(rnd)
+            evs_c, _ = saem.run_config(kind, acfg, seed=sd, workdir=w2, compare_to=info_a["params"], via_file=True)
+            events += evs_c
+            ctx.case(key=(kind, "reuse+file", sd))
         for i, l in enumerate(log_configs(rnd, n_cfg)):
             c = dict(base_cfg, log=l)
             w = os.path.join(ctx.tmp, f"log_{kind}_{i}")
